@@ -1080,8 +1080,16 @@ func (c *compiler) evalBlockStatement(node *ast.BlockStatement) (interface{}, er
 	return res, nil
 }
 
-func (c *compiler) evalStatement(node ast.Statement) (interface{}, error) {
+func (c *compiler) evalStatement(node ast.Statement) (res interface{}, err error) {
+	// the statement being evaluated is what an error is reported against; once it has completed
+	// the enclosing statement (if any) is current again
+	outer := c.curStmt
 	c.curStmt = node
+	defer func() {
+		if err == nil {
+			c.curStmt = outer
+		}
+	}()
 
 	switch t := node.(type) {
 	case *ast.ExpressionStatement:
